@@ -83,6 +83,7 @@ type unit struct {
 	cbs       []cbCall
 	locks     int
 	rlocks    int // how many of them are RLock() (shared mode)
+	clock     []bool // time.Now() calls: was a.mutex held?
 	deferUnl  bool
 }
 
@@ -206,6 +207,9 @@ func (w *walker) call(c *ast.CallExpr) {
 	}
 	switch f := c.Fun.(type) {
 	case *ast.SelectorExpr:
+		if id, ok := f.X.(*ast.Ident); ok && id.Name == "time" && f.Sel.Name == "Now" {
+			w.u.clock = append(w.u.clock, w.st.held)
+		}
 		if isRecv(w, f.X) && methodNames[f.Sel.Name] {
 			w.u.calls = append(w.u.calls, edge{f.Sel.Name, w.st.held})
 		} else if inner, ok := f.X.(*ast.SelectorExpr); ok && isRecv(w, inner.X) && sharedFields[inner.Sel.Name] {
@@ -688,6 +692,19 @@ func main() {
 		}
 		first = false
 		sb.WriteString(fmt.Sprintf("\n  (%s, %d, %s)", q(u.name), u.locks, b(u.deferUnl)))
+	}
+	sb.WriteString("]\n\n")
+	sb.WriteString("/-- (method, a.mutex held - locally or by every caller) for every reading of the clock (time.Now()) -/\n")
+	sb.WriteString("def aggClockReads : List (String × Bool) := [")
+	first = true
+	for _, u := range units {
+		for _, h := range u.clock {
+			if !first {
+				sb.WriteString(", ")
+			}
+			first = false
+			sb.WriteString(fmt.Sprintf("(%s, %s)", q(u.name), b(h || entryHeld[u.name])))
+		}
 	}
 	sb.WriteString("]\n\n")
 	sb.WriteString("/-- methods that take a.mutex in SHARED mode (RLock): they exclude writers, not each other -/\n")
